@@ -159,3 +159,50 @@ def _dump_simulated_recession_observations(connection, parameter_file, outfile, 
     ensures(seq_mean(g_sim) == seq_mean([g_rows[k][0] for k in range(len(g_rows))]))
     ensures(forall(0, len(g_rows), lambda i: forall(0, len(g_rows), lambda j:
             dumped(0)[len(g_rows) - 1 - j] - dumped(0)[len(g_rows) - 1 - i] == g_Q(g_rows[j][1] * 10) - g_Q(g_rows[i][1] * 10))))
+
+
+@contract("spowtd.simulate_rise:simulate_rise#table", db=True,
+          args={"connection": "connection", "parameters": "file", "outfile": "file", "observations_only": "bool"},
+          returns="none",
+          ghost_results={"g_rows": "list[tuple[real,real]]", "g_sy": "obj[spowtd.specific_yield:SpecificYield]"})
+def _simulate_rise_table(connection, parameters, outfile, observations_only):
+    """`spowtd simulate rise` without --observations: one table is written; after its header row, row k holds
+    (water level in mm, measured storage, simulated storage) of the k-th measured level, ascending; the simulated column
+    is the curve of compute_rise_curve on those levels with the measured mean."""
+    requires(not observations_only)
+    may_raise(ValueError)
+    may_raise(KeyError)
+    may_raise(TypeError)
+    ghost(after="cursor.execute('\\n    SELECT mean_crossing_depth_mm AS dynamic_storage_mm", let="g_rows", do=lambda: cursor.fetchall())
+    ghost(after="specific_yield = specific_yield_mod.create_specific_yield_function(", let="g_sy", do=lambda: specific_yield)
+    ghost(after="W_mm = compute_rise_curve(", let="g_W", do=lambda: W_mm)
+    ensures(dump_count() == 1 and len(g_rows) >= 1 and len(dumped(0)) == len(g_rows) + 1 and len(g_W) == len(g_rows))
+    ensures(forall(0, len(g_rows), lambda k: len(dumped(0)[k + 1]) == 3
+                   and dumped(0)[k + 1][0] == g_rows[k][1] and dumped(0)[k + 1][1] == g_rows[k][0]
+                   and dumped(0)[k + 1][2] == g_W[k]))
+    ensures(seq_mean(g_W) == seq_mean([g_rows[k][0] for k in range(len(g_rows))]))
+    ensures(forall(0, len(g_rows), lambda i: forall(0, len(g_rows), lambda j:
+            g_W[j] - g_W[i] == G_of(g_sy._spline, g_rows[j][1]) - G_of(g_sy._spline, g_rows[i][1]))))
+
+
+@contract("spowtd.simulate_recession:dump_simulated_recession#table", db=True,
+          args={"connection": "connection", "parameter_file": "file", "outfile": "file", "observations_only": "bool"},
+          returns="none", ghost_results={"g_rows": "list[tuple[real,real]]", "g_Q": "fn"})
+def _dump_simulated_recession_table(connection, parameter_file, outfile, observations_only):
+    """`spowtd simulate recession` without --observations: one table; after its header row, row k holds (water level
+    in MILLIMETRES, measured elapsed time, simulated elapsed time) of the k-th level from the top (D8: the first column
+    used to be in cm under a 'mm' heading)."""
+    requires(not observations_only)
+    requires(uf_real("site_curvature_m_km2") >= 0)
+    requires(uf_real("site_curvature_m_km2") > 0 or uf_real("mean_recession_et_mm_d") > 0)
+    may_raise(ValueError)
+    may_raise(KeyError)
+    may_raise(TypeError)
+    may_raise(AssertionError)
+    ghost(after="avg_elapsed_time_d, avg_zeta_cm, elapsed_time_d = simulate_recession(", let="g_sim", do=lambda: elapsed_time_d)
+    ensures(dump_count() == 1 and len(g_rows) >= 1 and len(dumped(0)) == len(g_rows) + 1 and len(g_sim) == len(g_rows))
+    ensures(forall(0, len(g_rows), lambda k: len(dumped(0)[k + 1]) == 3
+                   and dumped(0)[k + 1][0] == g_rows[len(g_rows) - 1 - k][1] * 10
+                   and dumped(0)[k + 1][1] == g_rows[len(g_rows) - 1 - k][0]
+                   and dumped(0)[k + 1][2] == g_sim[len(g_rows) - 1 - k]))
+    ensures(seq_mean(g_sim) == seq_mean([g_rows[k][0] for k in range(len(g_rows))]))
